@@ -240,7 +240,7 @@ def sortedOrder (cf : List CFunc) : List Nat :=
   ((List.range cf.length).filter (fun i => !((cf[i]?.map (·.removed)).getD true))).foldl (fun acc i => insertByKey cf i acc) []
 
 /-- the finished program -/
-def finish (name : String) (id : Nat) (s : BState) : Program :=
+def finish (name : String) (id : Nat) (s : BState) (heartBeatKey : Option NameKey := none) : Program :=
   let slots := epilogSlots s.slots
   let order := sortedOrder s.cfuncs
   let inverse (old : Nat) : Nat := (order.findIdx? (· == old)).getD order.length
@@ -252,11 +252,14 @@ def finish (name : String) (id : Nat) (s : BState) : Program :=
       else match sl.rt with
         | .defn ci na => .defn (inverse ci) na
         | e => e),
-    inherit := s.inherits }
+    inherit := s.inherits,
+    -- epilog(): `ihe = lookup_ident ("heart_beat"); prog->heart_beat = ihe ? ihe->dn.function_num : -1`
+    heartBeat := heartBeatKey.bind s.ident }
 
 /-- compile one source file against the world of already compiled programs -/
-def buildProgram (w : World) (name : String) (id : Nat) (items : List Item) : Program :=
-  finish name id (items.foldl (doItem w) {})
+def buildProgram (w : World) (name : String) (id : Nat) (items : List Item) (heartBeatKey : Option NameKey := none) :
+    Program :=
+  finish name id (items.foldl (doItem w) {}) heartBeatKey
 
 /-! ### rendering in the format of the harness' `tbl` line -/
 
@@ -282,6 +285,7 @@ def renderTbl (w : World) (P : Program) : String :=
   let inh := if P.inherit.isEmpty then "-" else
     ",".intercalate (P.inherit.map fun ih =>
       s!"{((w.progs[ih.prog]?).map (·.name)).getD "?"}:{ih.fio}:{ih.vio}:{ih.typeMod}")
-  s!"tbl {P.name} id={P.id} nvt={P.nvt} nvd={P.nvd} ft={ft} fl={fl} inh={inh}"
+  let hb := match P.heartBeat with | some i => toString i | none => "-1"
+  s!"tbl {P.name} id={P.id} nvt={P.nvt} nvd={P.nvd} ft={ft} fl={fl} hb={hb} inh={inh}"
 
 end NV.C07
